@@ -76,6 +76,10 @@ CHECKS = {
             "Multi-step worlds in which CAs move between repositories, are dropped, expire or fail to update; after every successful run with cleanup the cache listing (stored points, rsync module directories, RRDP archives) must still contain every stored point whose manifest EE certificate has not expired and every collector copy used by a retained point, and a following offline run reproduces the model's result; a run made to fail by a provoked corrupt RRDP archive must remove nothing that is still needed.",
             "Upper direction only for what must be kept; that unneeded data is eventually removed is probed, not required. The failed-run oracle is restricted to unexpired points and their copies.",
             "deterministic simulation: world histories with moving/expiring CAs and provoked failed runs, keep-set oracle from the reference model", "§5 C40"),
+    "C27": ("A (world) with corrupted cache files, the runs executed in a forked child under an address-space limit", "exploration",
+            "After a generated world history the files of the local cache (stored publication points, store status, stored TA certificates, RRDP archives including their state record, occasionally rsync copies) are corrupted in 5 (thorough: 12) rounds per world: truncation, bit flips, huge or odd values written over 4/8 byte fields (biased to the header region), random replacement, zero and 0xff runs, appended garbage, zero-filled tail (torn write). After each round two real validation runs (real Engine, Store, Collector, archive code, simulated servers) execute in a forked child whose address space is limited to the process size plus 1 GiB; each must end with a result or a reported failure: a panic, a terminating signal (abort, failed allocation) or a hang is a violation.",
+            "The verdict is about termination mode and memory only; what a run makes of corrupt data is covered by C01/C04/C23/C24. Built with overflow checks on (stricter than the release profile). The fork happens from the simulation thread of a process whose other thread only waits.",
+            "deterministic simulation: seeded disk-corruption faults between runs, crash/abort/allocation observer on the real run in a forked child", "§5 C27"),
     "C41": (ENGINE_A, "exploration",
             "Differential pair of real runs: after a generated (mostly healthy) world history with several repositories the last run is executed twice from the same cache copy and the same simulated instant, once as is and once with a fault placed in one repository (unreachable over RRDP and/or rsync incl. garbage or truncated notification, corrupt local RRDP archive, bad/withheld objects, broken manifests or CRLs, stale or premature manifests). Every difference between the two served data sets must be payload that a CA published in that repository, or a descendant, has ever published (or, under the reject policy, a VRP overlapping their resources); the run with the fault must complete (one retry after a retryable failure allowed, as the server does).",
             "Attribution of payload to CAs comes from generator ground truth over all versions ever published; payload duplicated inside and outside the subtree is not attributable and excused. The first run of the pair is additionally checked against the reference model.",
